@@ -49,6 +49,9 @@ def curated(tier):
         add("functional_x", cell, cdeg=2 if cell != "tetrahedron" else 1)
         add("mathfuns", cell)
         add("conditionals", cell)
+        add("cond_ties", cell, data_fixed={"w": 0.0, "c": 2.0})
+        add("cond_ties", cell)
+        add("zero_data_math", cell, data_fixed={"w": 0.0, "c": 2.0})
         add("multi_rule", cell)
         add("multi_rule_vertex", cell)
         add("real_space", cell)
